@@ -432,7 +432,9 @@ pub fn run(scn: &Value) -> Value {
     // The second execution is reported when it differs from the first.
     // ... and a third time with the request arriving in pieces: the head in one read, the body in up to three more
     let pieces: Vec<Vec<u8>> = { let hl = raw.len() - body.len(); let mut v = vec![raw[..hl].to_vec()];
-        if !body.is_empty() { let (a, b) = (body.len() / 3, 2 * body.len() / 3 + 1); for part in [&body[..a], &body[a..b.min(body.len())], &body[b.min(body.len())..]] { if !part.is_empty() { v.push(part.to_vec()) } } }
+        if !body.is_empty() { let (a, b) = (body.len() / 3, 2 * body.len() / 3 + 1); for part in [&body[..a], &body[a..b.min(body.len())], &body[b.min(body.len())..]] { if !part.is_empty() { v.push(part.to_vec()) } }
+            // a pipelining client: the segment that brings the end of the body also brings the next request (none of whose bytes belong to this body)
+            if v.len() > 1 { v.last_mut().unwrap().extend_from_slice(b"GET /zz/next?n=5 HTTP/1.1\r\nHost: next\r\nContent-Type: text/plain\r\n\r\n") } }
         v };
     let exec = |after: bool, in_pieces: bool| -> (Vec<u8>, &'static str, Vec<Vec<Got>>) {
         LOG.with(|l| l.borrow_mut().clear());
